@@ -1,5 +1,6 @@
 import ArcaModel.Lemmas.StructRoundTripObj
 import ArcaModel.Lemmas.StructRoundTripColl
+import ArcaModel.Lemmas.StructOneOf
 /-
   The end-to-end round trip over whole trees: induction over the budget.
 -/
@@ -18,6 +19,17 @@ inductive RTOK : Nat → STy → Prop
   | scope {d t} : RTOK d t → RTOK (d + 1) (.scope t)
   | list {d item a b} : RTOK d item → RTOK (d + 1) (.list item a b)
   | map {d k v a b} : WF1 [] k → RTOK d v → RTOK (d + 1) (.map k v a b)
+  /-- a one-of with a SEPARATE discriminator: the members are struct-mapped objects that do not
+      declare the discriminator, of pairwise distinct struct types -/
+  | oneOf {d ik disc members} : (∀ m, m ∈ members → RTOK d m.2) → (∀ m, m ∈ members → ObjLikeS m.2) →
+      (∀ m, m ∈ members → NoDisc disc m.2) → (members.map fun m => reflTy m.2).Nodup →
+      RTOK (d + 1) (.oneOf ik disc false members)
+  /-- a one-of with an INLINED discriminator: the members are struct-mapped objects that declare
+      the discriminator as a leaf of the key kind (with or without treat-empty-as-default), of
+      pairwise distinct struct types -/
+  | oneOfInl {d ik disc members} : (∀ m, m ∈ members → RTOK d m.2) → (∀ m, m ∈ members → ObjLikeS m.2) →
+      (∀ m, m ∈ members → InlDisc ik disc m.2) → (members.map fun m => reflTy m.2).Nodup →
+      RTOK (d + 1) (.oneOf ik disc true members)
   | obj {d id st ptrT props} : WFObj st props → exactObjB st props = true →
       (∀ kp, kp ∈ props → rtPropB st props kp = true) → (∀ kp, kp ∈ props → RTOK (d + 2) kp.2.ty) →
       RTOK (d + 3) (.obj id st ptrT props)
@@ -43,14 +55,19 @@ theorem rt_leaf (x : Ext) (f : Nat) (t : Ty) (hwf : WF1 [] t) : RTAt (srun x (f 
     | panic => simp [hr] at hU
     | fuel => simp [hr] at hU
 
-theorem rt_all (x : Ext) : ∀ (fuel d : Nat) (t : STy), RTOK d t → d ≤ fuel → RTAt (srun x fuel) t
-  | 0, _, _, _, _ => by intro v s hU; simp [srun] at hU
+/-- the round trip of every tree within the hypotheses, together with the inlined-member form of
+    it (`RTInl`) for the trees that may be members of an inlined one-of -/
+theorem rt_all2 (x : Ext) : ∀ (fuel d : Nat) (t : STy), RTOK d t → d ≤ fuel →
+    RTAt (srun x fuel) t ∧ ∀ ik disc, InlDisc ik disc t → RTInl (srun x fuel) x ik disc t
+  | 0, _, _, _, _ => ⟨by intro v s hU; simp [srun] at hU, by intro _ _ _ mIn s d key hU; simp [srun] at hU⟩
   | f + 1, d, t, hok, hd => by
     cases hok with
-    | leaf h => exact rt_leaf x f _ h
+    | leaf h => exact ⟨rt_leaf x f _ h, fun _ _ hin => by cases hin⟩
     | scope h =>
       rename_i d' t'
-      have ih := rt_all x f d' t' h (by omega)
+      have ih2 := rt_all2 x f d' t' h (by omega)
+      have ih := ih2.1
+      refine ⟨?_, fun ik disc hin => by cases hin with | scope h' => exact rt_scope_inl (ih2.2 ik disc h')⟩
       intro v s hU
       simp only [srun] at hU
       obtain ⟨hV, w, s', hS, hU2, hE, hS2, hV2, _⟩ := ih v s hU
@@ -58,28 +75,59 @@ theorem rt_all (x : Ext) : ∀ (fuel d : Nat) (t : STy), RTOK d t → d ≤ fuel
         .scope hE, by simp only [srun]; exact hS2, by simp only [srun]; exact hV2, fun h => by simp [plainLeaf] at h⟩
     | list h =>
       rename_i d' item a b
-      have ih := rt_all x f d' item h (by omega)
+      have ih := (rt_all2 x f d' item h (by omega)).1
+      refine ⟨?_, fun _ _ hin => by cases hin⟩
       intro v s hU
       simp only [srun] at hU ⊢
       obtain ⟨hV, w, s', hS, hU2, hE, hS2, hV2⟩ := rt_list a b ih v s hU
       exact ⟨hV, w, s', hS, hU2, hE, hS2, hV2, fun h => by simp [plainLeaf] at h⟩
     | map hk h =>
       rename_i d' k vt a b
-      have ih := rt_all x f d' vt h (by omega)
+      have ih := (rt_all2 x f d' vt h (by omega)).1
+      refine ⟨?_, fun _ _ hin => by cases hin⟩
       intro v s hU
       simp only [srun] at hU ⊢
       obtain ⟨hV, w, s', hS, hU2, hE, hS2, hV2⟩ := rt_map x f a b hk ih v s hU
+      exact ⟨hV, w, s', hS, hU2, hE, hS2, hV2, fun h => by simp [plainLeaf] at h⟩
+    | oneOf hm ho hno hnd =>
+      rename_i d' ik disc members
+      have ih : ∀ m, m ∈ members → RTAt (srun x f) m.2 := fun m hmm => (rt_all2 x f d' m.2 (hm m hmm) (by omega)).1
+      refine ⟨?_, fun _ _ hin => by cases hin⟩
+      intro v s hU
+      simp only [srun] at hU ⊢
+      obtain ⟨hV, w, s', hS, hU2, hE, hS2, hV2⟩ := rt_oneOfS x ik disc ih
+        (fun m hmm v r hr => srun_U_objLike x f m.2 v r (ho m hmm) hr)
+        (fun m hmm s r hr => by
+          obtain ⟨rm, rfl⟩ := srun_S_objLike x f m.2 s r (ho m hmm) hr
+          exact ⟨rm, rfl, srun_S_noDisc x disc f m.2 s rm (hno m hmm) hr⟩)
+        hnd v s hU
+      exact ⟨hV, w, s', hS, hU2, hE, hS2, hV2, fun h => by simp [plainLeaf] at h⟩
+    | oneOfInl hm ho hin hnd =>
+      rename_i d' ik disc members
+      have ih : ∀ m, m ∈ members → RTInl (srun x f) x ik disc m.2 :=
+        fun m hmm => (rt_all2 x f d' m.2 (hm m hmm) (by omega)).2 ik disc (hin m hmm)
+      refine ⟨?_, fun _ _ hin => by cases hin⟩
+      intro v s hU
+      simp only [srun] at hU ⊢
+      obtain ⟨hV, w, s', hS, hU2, hE, hS2, hV2⟩ := rt_oneOfS_inl x ik disc ih
+        (fun m hmm v r hr => srun_U_objLike x f m.2 v r (ho m hmm) hr) hnd v s hU
       exact ⟨hV, w, s', hS, hU2, hE, hS2, hV2, fun h => by simp [plainLeaf] at h⟩
     | obj hw hex hrt hp =>
       rename_i d' id st ptrT props
       obtain ⟨n, rfl⟩ : ∃ n, f = n + 2 := ⟨f - 2, by omega⟩
       have ih : ∀ kp, kp ∈ props → RTAt (srun x (n + 2)) kp.2.ty :=
-        fun kp hkp => rt_all x (n + 2) (d' + 2) kp.2.ty (hp kp hkp) (by omega)
+        fun kp hkp => (rt_all2 x (n + 2) (d' + 2) kp.2.ty (hp kp hkp) (by omega)).1
+      refine ⟨?_, fun ik disc hin => by
+        cases hin with
+        | obj hpd hty hT => exact rt_obj_inl x n ik disc id ptrT hw hex hrt ih hpd hty hT⟩
       intro v s hU
       simp only [srun] at hU ⊢
       obtain ⟨hV, w, s', hS, hU2, hE, hS2⟩ := rt_obj x n id ptrT hw hex hrt ih v s hU
       obtain ⟨hV2, _⟩ := rt_obj x n id ptrT hw hex hrt ih (.val w) s' hU2
       exact ⟨hV, w, s', hS, hU2, hE, hS2, hV2, fun h => by simp [plainLeaf] at h⟩
+
+theorem rt_all (x : Ext) (fuel d : Nat) (t : STy) (hok : RTOK d t) (hd : d ≤ fuel) : RTAt (srun x fuel) t :=
+  (rt_all2 x fuel d t hok hd).1
 
 /-- no property of the tree is treat-empty-as-default -/
 def noEmptyB : Nat → STy → Bool
@@ -89,6 +137,7 @@ def noEmptyB : Nat → STy → Bool
   | n + 1, .map _ v _ _ => noEmptyB n v
   | n + 1, .scope t => noEmptyB n t
   | n + 1, .obj _ _ _ props => props.all fun kp => !kp.2.emptyIsDefault && noEmptyB n kp.2.ty
+  | n + 1, .oneOf _ _ _ members => members.all fun m => noEmptyB n m.2
 
 theorem EqvList_eq {t : STy} (ih : ∀ x x', Eqv t x x' → x = x') : ∀ (xs xs' : List SV), EqvList t xs xs' → xs = xs'
   | _, _, .nil => rfl
@@ -115,6 +164,15 @@ theorem Eqv_eq : ∀ (n d : Nat) (t : STy) (s s' : SV), noEmptyB n t = true → 
       cases hok with
       | map _ hok' =>
         rw [EqvKVs_eq (fun x x' h => Eqv_eq n _ _ x x' (by simpa [noEmptyB] using hne) hok' h) _ _ hM]
+    | oneOf hkm hE' =>
+      rename_i km
+      cases hok with
+      | oneOf hp _ _ _ =>
+        simp only [noEmptyB, List.all_eq_true] at hne
+        exact Eqv_eq n _ _ _ _ (hne km hkm) (hp km hkm) hE'
+      | oneOfInl hp _ _ _ =>
+        simp only [noEmptyB, List.all_eq_true] at hne
+        exact Eqv_eq n _ _ _ _ (hne km hkm) (hp km hkm) hE'
     | obj hnames hkeys hun hmap =>
       rename_i id st ptrT props fs fs'
       cases hok with
@@ -165,6 +223,18 @@ theorem rtOKB_sound : ∀ (n : Nat) (t : STy), rtOKB n t = true → RTOK (n + 2)
       simp only [rtOKB, Bool.and_eq_true] at h
       exact .map (wf1B_sound _ _ _ h.1) (rtOKB_sound n v h.2)
     | scope t => exact .scope (rtOKB_sound n t (by simpa [rtOKB] using h))
+    | oneOf ik d inl members =>
+      simp only [rtOKB, Bool.and_eq_true, List.all_eq_true, decide_eq_true_eq] at h
+      obtain ⟨⟨hm, _⟩, hnd⟩ := h
+      cases inl with
+      | false =>
+        exact .oneOf (fun m hmm => rtOKB_sound n m.2 (hm m hmm).1.1)
+          (fun m hmm => objLikeS_sound n m.2 (hm m hmm).1.2)
+          (fun m hmm => noDisc_of_discOK n ik d m.2 (hm m hmm).1.2 (hm m hmm).2) hnd
+      | true =>
+        exact .oneOfInl (fun m hmm => rtOKB_sound n m.2 (hm m hmm).1.1)
+          (fun m hmm => objLikeS_sound n m.2 (hm m hmm).1.2)
+          (fun m hmm => inlDisc_of_discOK n ik d m.2 (hm m hmm).1.2 (hm m hmm).2) hnd
     | obj id st ptrT props =>
       simp only [rtOKB, rtObjB, Bool.and_eq_true, List.all_eq_true] at h
       exact .obj ((wfObjB_iff st props).mp h.1.1.1) h.1.1.2 h.1.2 (fun kp hkp => rtOKB_sound n kp.2.ty (h.2 kp hkp))
